@@ -13,7 +13,9 @@ Three independent evaluations per run:
          row order, shuffle switch and seed; prediction by name; save/load identity; fit-call count
   model  the compiled Lean model (`fitmodel`, cross-checked against `fitspec`, `predictbyname`, `argsort`;
          `fitcv` / `cvexamples` for the hyper-parameter search step; `getscores` for `_get_scores`;
-         `predictscaled` for `Model.decision_function` with a positional scaler and the is_trained guard)
+         `predictscaled` for `Model.decision_function` with a positional scaler and the is_trained guard;
+         second pass: `fitfull` = `Model.fit` from the DataFrame (feature list, stored names, fitted scaler, direction
+         by name), `predictfull` = prediction of the trained object on another presentation of a table)
 """
 from __future__ import annotations
 
@@ -44,7 +46,14 @@ RULE = (
     "per output form of decision_function / predict_proba: vector, 1/2/3 columns, nested list, both methods, 3 axes, "
     "no column) with predictions on all rows, permuted rows, a subset and a single row; predictions through a "
     "data-dependent positional scaler with permuted columns / other name sets / an untrained model; every re-fit run "
-    "twice (other shuffle switch, seed, row order) with `direction` set; load_model on a Percolator weights file"
+    "twice (other shuffle switch, seed, row order) with `direction` set; load_model on a Percolator weights file; "
+    "second pass: dataset-level cases (feature_columns given as an ordered subset or inferred, any physical column "
+    "order with metadata columns between the features and unused columns, index labels range / reversed / duplicated "
+    "/ strings, feature dtypes float64 / float32 / int64 / int32 per column or per block, bool / 0-1 target column, "
+    "int seed or Generator, as-is or data-dependent scaler, direction by name incl. a non-feature) = two presentations "
+    "of one table + predictions of the trained and of the re-loaded object on a third presentation; re-fits on a "
+    "table of other PSMs (other size, ids, feature location) and of a saved / re-loaded model; a second fit of every "
+    "model of the hyper-parameter-search runs; float32 and integer decision values"
 )
 
 PROBA_SHIFT = 2 ** 44
@@ -1002,21 +1011,48 @@ def refit_cases(chk, rng, count):
 
         # the second dataset: other row order, other feature-column order (the id stays the first feature
         # so that the recorder can still name the PSMs), sometimes another name set
-        order2 = order0[:]
+        # (second pass) the table of the re-fit is the same PSMs — or OTHER PSMs: another number of rows, other ids,
+        # features at another location, so that the scaler the re-fit fits differs from the stored one (the start
+        # scores go through the stored scaler, the training rows through the new one)
+        tab2 = tab
+        if rng.random() < 0.45:
+            for _ in range(8):
+                cand = gen_table(rng, 60)
+                if len(cand["feats"][0]) == nfeat and len(cand["ids"]) >= 6 and any(cand["targets"]) \
+                        and not all(cand["targets"]):
+                    shift = rng.choice([0, 4, -6])
+                    tab2 = dict(ids=[1000 + x for x in cand["ids"]], feats=[[v + shift for v in r] for r in cand["feats"]],
+                                targets=cand["targets"], pat=cand["pat"])
+                    break
+        n2 = len(tab2["ids"])
+        lo2 = [0] + [min(r[j] for r in tab2["feats"]) if scaled else 0 for j in range(nfeat)]
+
+        def srow_via(lo_, i, cols):
+            """the row of PSM i of the re-fit table through a scaler with the column minima `lo_`"""
+            return [tab2["ids"][i] if c == "rowid" else (tab2["feats"][i][int(c[1:])] - lo_[int(c[1:]) + 1]) * m
+                    for c in cols]
+
+        order2 = list(range(n2))
         rng.shuffle(order2)
         cols2 = names[1:]
         rng.shuffle(cols2)
         cols2 = ["rowid"] + cols2
         rename = {cols2[-1]: "zzz"} if rng.random() < 0.1 else None
-        ps2 = dataset(build_psms(tab, order2, colnames=cols2, rename=rename))
+        ps2 = dataset(build_psms(tab2, order2, colnames=cols2, rename=rename))
         k2 = rng.choice([1, 2, 3])
         sh2 = rng.random() < 0.5
         model.max_iter, model.shuffle, model.rng = k2, sh2, rng.randrange(10 ** 6)
         # `direction` is documented to be ignored once the model is trained (the model op passes none)
         dir2 = rng.choice([None, None, cols2[-1], cols2[1]])
         model.direction = dir2
-        # variant B of the same re-fit: a deep copy of the trained model, other shuffle switch / seed / row order
-        model_b = copy.deepcopy(model)
+        # variant B of the same re-fit: a deep copy of the trained model — or (second pass) the model saved and
+        # re-loaded — with another shuffle switch / seed / row order
+        via_pickle = rng.random() < 0.5
+        if via_pickle:
+            with tempfile.TemporaryDirectory() as tmpd:
+                model_b = mokapot.load_model(mokapot.save_model(model, Path(tmpd) / "refit.pkl"))
+        else:
+            model_b = copy.deepcopy(model)
         log_b = new_log()
         model_b.estimator.log_id = log_b
         sh2b = (not sh2) if rng.random() < 0.7 else sh2
@@ -1032,18 +1068,20 @@ def refit_cases(chk, rng, count):
             status = classify_exc(e)
         events = RECORDS.pop(log, [])
         try:
-            model_b.fit(dataset(build_psms(tab, order2b, colnames=cols2, rename=rename)))
+            model_b.fit(dataset(build_psms(tab2, order2b, colnames=cols2, rename=rename)))
             status_b = "ok"
         except Exception as e:  # noqa: BLE001
             status_b = classify_exc(e)
         events_b = RECORDS.pop(log_b, [])
         chk.count("refit_direction", "none" if dir2 is None else "given")
         chk.count("refit_variant_b", f"shuffle={sh2}->{sh2b},rows={'same' if order2b == order2 else 'permuted'}")
-        ids2 = [tab["ids"][i] for i in order2]
-        targets2 = [tab["targets"][i] for i in order2]
-        start_scores = [sum(a * b for a, b in zip(w, srow(i, names))) for i in order2]
+        chk.count("refit_table", "same-psms" if tab2 is tab else "other-psms")
+        chk.count("refit_variant_b_object", "save/load" if via_pickle else "deepcopy")
+        ids2 = [tab2["ids"][i] for i in order2]
+        targets2 = [tab2["targets"][i] for i in order2]
+        start_scores = [sum(a * b for a, b in zip(w, srow_via(lo, i, names))) for i in order2]
         acc, boundary = accepted([Fraction(x) for x in start_scores], targets2, thr)
-        chk.case(None, ("refit", json.dumps(tab, sort_keys=True), kind, api, str(thr), scaled, tuple(cols2), k2, sh2),
+        chk.case(None, ("refit", json.dumps(tab, sort_keys=True), json.dumps(tab2, sort_keys=True), kind, api, str(thr), scaled, tuple(cols2), k2, sh2),
                  sample=None)
         chk.count("refit_status", status)
         chk.count("refit_scaler", "IntScaler" if scaled else "as-is")
@@ -1061,7 +1099,7 @@ def refit_cases(chk, rng, count):
             if not pre:
                 viol.append(("refit-start-by-name", "no scoring call before the first fit of a re-fit", {}))
             else:
-                want_rows = [srow(i, names) for i in order2]
+                want_rows = [srow_via(lo, i, names) for i in order2]
                 if pre[0][3] != want_rows or pre[0][1] != ids2 or pre[0][2] != start_scores:
                     viol.append(("refit-start-by-name",
                                  "re-fit: the start scores are not computed from each PSM's features matched by "
@@ -1073,7 +1111,7 @@ def refit_cases(chk, rng, count):
                 lab = {r[0]: y for r, y in zip(fits[0][1], fits[0][2])}
                 pos = {ids2.index(r) for r, y in lab.items() if y == 1.0 and r in ids2}
                 neg = {ids2.index(r) for r, y in lab.items() if y == 0.0 and r in ids2}
-                if pos != acc or neg != {k for k in range(n) if not targets2[k]} or len(lab) != len(fits[0][1]):
+                if pos != acc or neg != {k for k in range(n2) if not targets2[k]} or len(lab) != len(fits[0][1]):
                     viol.append(("refit-positives", "re-fit: first training set is not (accepted targets under the "
                                  "by-name start scores, all decoys)", dict(got=sorted(lab.items())[:12])))
         if kind in INVARIANT_KINDS and rename is None and not viol:
@@ -1090,12 +1128,12 @@ def refit_cases(chk, rng, count):
                                  dict(shuffle_b=sh2b, order2b=order2b, a=str(ca[key])[:300], b=str(cb[key])[:300])))
                     break
         for sig, clause, detail in viol:
-            chk.spec_violation(sig, dict(clause=clause, tab=tab, kind=kind, api=api, thr=str(thr), scaled=scaled,
+            chk.spec_violation(sig, dict(clause=clause, tab=tab, tab2=tab2, kind=kind, api=api, thr=str(thr), scaled=scaled,
                                          mult=mult, cols2=cols2, order2=order2, max_iter2=k2, shuffle2=sh2, direction2=dir2, **detail))
         # model
         scores_ev = [e for e in events if e[0] == "score"]
         after_fit = False
-        perm = list(range(n))
+        perm = list(range(n2))
         for e in events:
             if e[0] == "fit":
                 after_fit = True
@@ -1103,14 +1141,14 @@ def refit_cases(chk, rng, count):
                 perm = [ids2.index(r) for r in e[1]]
                 break
         names2 = [rename.get(c, c) for c in cols2] if rename else cols2
-        rows2 = [srow(i, cols2) for i in order2]
-        named = [[c2, [Fraction(v) for v in (srow(i, [c])[0] for i in order2)]] for c, c2 in zip(cols2, names2)]
+        rows2 = [srow_via(lo2, i, cols2) for i in order2]
+        named = [[c2, [Fraction(v) for v in (srow_via(lo, i, [c])[0] for i in order2)]] for c, c2 in zip(cols2, names2)]
         lines.append(req("refitmodel", Atom(kind), sh2, perm, k2, thr, True, rows2, targets2,
                          [Fraction(x) for x in w], names, named))
         its = split_events([e for e in events[len(pre):]])
         impl = dict(status=status, trace=[[(r[0], y) for r, y in zip(it["rows"], it["y"])] for it in its],
                     weights=list(model.estimator.w_) if status == "ok" else None)
-        pending.append((impl, bool(viol), dict(tab=tab, kind=kind, thr=str(thr), cols2=names2, order2=order2,
+        pending.append((impl, bool(viol), dict(tab=tab, tab2=tab2, kind=kind, thr=str(thr), cols2=names2, order2=order2,
                                                scaled=scaled, perm=perm, k2=k2, sh2=sh2)))
     for (impl, had_viol, info), r in zip(pending, common.driver_batch(lines)):
         m = parse_fit(r)
@@ -1155,6 +1193,20 @@ class _ShapeBase(BaseEstimator):
 class ShapeDecision(_ShapeBase):
     def decision_function(self, X):
         return np.array([float(v) for v in self._rawv(X, "decision_function")], dtype=float)
+
+
+class ShapeDecisionF32(_ShapeBase):
+    """decision values as float32 (second pass: the dtype of the estimator's output was always float64)"""
+
+    def decision_function(self, X):
+        return np.array([float(v) for v in self._rawv(X, "decision_function")], dtype=np.float32)
+
+
+class ShapeDecisionI64(_ShapeBase):
+    """integer decision values"""
+
+    def decision_function(self, X):
+        return np.array([int(v) for v in self._rawv(X, "decision_function")], dtype=np.int64)
 
 
 class ShapeFlat(_ShapeBase):
@@ -1206,9 +1258,10 @@ class ShapeCol0(_ShapeBase):
         return np.empty((len(self._p(X)), 0))
 
 
-SHAPES = {"decision": ShapeDecision, "flat": ShapeFlat, "col1": ShapeCol1, "col2": ShapeCol2, "col3": ShapeCol3,
+SHAPES = {"decision": ShapeDecision, "dec_f32": ShapeDecisionF32, "dec_i64": ShapeDecisionI64, "flat": ShapeFlat, "col1": ShapeCol1, "col2": ShapeCol2, "col3": ShapeCol3,
           "list2": ShapeList, "both": ShapeBoth, "cube": ShapeCube, "col0": ShapeCol0}
 SHAPE_ERRORS = {"cube": "reject-dims", "col0": "reject-index"}
+DECISION_SHAPES = ("decision", "dec_f32", "dec_i64", "both")
 
 
 def shape_outputs(shape, raws):
@@ -1218,8 +1271,8 @@ def shape_outputs(shape, raws):
     half = Fraction(1, 2)
     p = [half + Fraction(v, PROBA_SHIFT) for v in raws]
     pf = [half + Fraction(-v, PROBA_SHIFT) for v in raws]
-    dec_arg = [[Fraction(v) for v in raws]] if shape in ("decision", "both") else []
-    if shape == "decision":
+    dec_arg = [[Fraction(v) for v in raws]] if shape in DECISION_SHAPES else []
+    if shape in ("decision", "dec_f32", "dec_i64"):
         proba = [Atom("vec"), []]        # never called; any value
     elif shape == "flat":
         proba = [Atom("vec"), p]
@@ -1241,7 +1294,7 @@ def shape_outputs(shape, raws):
 def shape_spec(shape, raws):
     """re-statement: the score of a PSM is its decision value when the estimator has a `decision_function`,
     otherwise its positive-class probability"""
-    if shape in ("decision", "both"):
+    if shape in DECISION_SHAPES:
         return [float(v) for v in raws]
     return [_proba(v) for v in raws]
 
@@ -1327,7 +1380,7 @@ def eval_shape_cases(chk, infos):
         viol = []
         # ---- which method was called -------------------------------------------------------------------
         called = {e[1] for e in events if e[0] == "call"}
-        want_called = {"decision_function"} if shape in ("decision", "both") else {"predict_proba"}
+        want_called = {"decision_function"} if shape in DECISION_SHAPES else {"predict_proba"}
         if called != want_called:
             viol.append(("score-api-method", "an estimator with a decision_function must be scored with it, one "
                          "without by predict_proba", dict(called=sorted(called))))
@@ -1385,6 +1438,355 @@ def eval_shape_cases(chk, infos):
 
 def score_api_cases(chk, rng, count):
     eval_shape_cases(chk, [gen_shape_case(rng, c) for c in range(count)])
+
+
+# ----------------------------------------------------------------------------
+# second audit pass: Model.fit from the DataFrame (feature list given or inferred, any physical column order,
+# metadata between the features, unused columns, index / dtype forms, a data-dependent scaler), and the prediction
+# of the trained object — also after save/load — on another presentation of the table
+# ----------------------------------------------------------------------------
+FULL_META = ["target", "spec", "pep"]
+FULL_DTYPES = ["float64", "float64", "int64", "float32", "int32"]
+
+
+def _interleave(rng, a, b):
+    """random merge of two lists that keeps the relative order inside each"""
+    a, b, out = list(a), list(b), []
+    while a or b:
+        if a and (not b or rng.random() * (len(a) + len(b)) < len(a)):
+            out.append(a.pop(0))
+        else:
+            out.append(b.pop(0))
+    return out
+
+
+def _full_presentation(rng, n, feat_order, explicit, allf, meta, subset=False):
+    """one way of handing the same PSMs to mokapot: row order, physical column order, feature_columns option,
+    index labels, column dtypes, encoding of the target column"""
+    order = list(range(n))
+    if rng.random() < 0.7:
+        rng.shuffle(order)
+    if subset:
+        order = order[: rng.choice([1, max(1, n // 2), n, n])]
+    if explicit:
+        cols = list(meta) + ["rowid"] + list(allf)      # unused f-columns stay in the frame as non-features
+        rng.shuffle(cols)
+        fc = list(feat_order)
+    else:
+        cols = _interleave(rng, meta, feat_order)        # the features are whatever is not declared, in frame order
+        fc = None
+    # dtypes: per column, or one kind for the whole feature block (`.values` of an all-integer / all-float32 block
+    # keeps that dtype, a mixed block is up-cast to float64)
+    mode = rng.choice(["mixed", "mixed", "int", "int", "int64", "float32", "float64"])
+    pool = {"mixed": FULL_DTYPES, "int": ["int64", "int32"]}.get(mode, [mode])
+    return dict(order=order, cols=cols, fc=fc, index=rng.choice(["range", "range", "reversed", "dup", "str"]),
+                dtypes={c: rng.choice(pool) for c in ["rowid"] + list(allf)},
+                target=rng.choice(["bool", "bool", "int01"]))
+
+
+def gen_full_case(rng):
+    tab = gen_table(rng, 40)
+    n = len(tab["ids"])
+    nfeat = len(tab["feats"][0])
+    allf = [f"f{j}" for j in range(nfeat)]
+    meta = FULL_META + (["prot"] if rng.random() < 0.3 else [])
+    explicit = rng.random() < 0.6
+    feat_order = ["rowid"] + rng.sample(allf, rng.randint(1, nfeat) if explicit else nfeat)
+    nt = sum(tab["targets"])
+    pool = [Fraction(x) for x in ["1/2", "1/4", "3/4", "1", "3/8", "1/8"]]
+    thr = rng.choice([t for t in pool if t * max(nt, 1) >= 2] or [Fraction(1)])
+    r = rng.random()
+    if r < 0.65:
+        direction = None
+    elif r < 0.93:
+        direction = rng.choice(feat_order)
+    else:
+        direction = rng.choice(["nope"] + [f for f in allf if f not in feat_order])   # not a feature: KeyError
+    variants = []
+    for v in range(2):
+        variants.append(dict(pres=_full_presentation(rng, n, feat_order, explicit, allf, meta),
+                             shuffle=rng.random() < 0.6, seed=rng.randrange(10 ** 6),
+                             rng_form=rng.choice(["int", "int", "generator"])))
+    variants[1]["shuffle"] = (not variants[0]["shuffle"]) if rng.random() < 0.6 else variants[1]["shuffle"]
+    # the dataset a prediction is asked for: the same feature *set*, listed (or inferred) in any order
+    p_explicit = rng.random() < 0.5
+    p_order = list(feat_order)
+    rng.shuffle(p_order)
+    probe = _full_presentation(rng, n, p_order, p_explicit, [f for f in allf if f in feat_order] if not p_explicit
+                               else allf, meta, subset=True)
+    return dict(tab=tab, feat_order=feat_order, meta=meta, kind=rng.choice(KINDS),
+                api=rng.choice(["decision", "decision", "proba2", "proba1"]), thr=str(thr),
+                max_iter=rng.choice([1, 2, 2, 3, 4]), override=rng.random() < 0.7, direction=direction,
+                mult=rng.choice([0, 0, 1, 2, 3]),       # 0: scaler="as-is", otherwise IntScaler(mult)
+                enforce=rng.random() < 0.8, variants=variants, probe=probe)
+
+
+def full_frame(tab, pres):
+    order = pres["order"]
+    n = len(order)
+    data = {}
+    for c in pres["cols"]:
+        if c == "target":
+            v = [bool(tab["targets"][i]) for i in order]
+            data[c] = np.array(v, dtype=bool) if pres["target"] == "bool" else np.array([int(x) for x in v], dtype="int64")
+        elif c == "spec":
+            data[c] = np.arange(n)
+        elif c == "pep":
+            data[c] = [f"PEP{tab['ids'][i]}" for i in order]
+        elif c == "prot":
+            data[c] = [f"PR{tab['ids'][i] % 3}" for i in order]
+        elif c == "rowid":
+            data[c] = np.array([tab["ids"][i] for i in order], dtype=pres["dtypes"][c])
+        else:
+            data[c] = np.array([tab["feats"][i][int(c[1:])] for i in order], dtype=pres["dtypes"][c])
+    df = pd.DataFrame(data, columns=pres["cols"])
+    if pres["index"] == "reversed":
+        df.index = np.arange(n)[::-1] * 3 + 7
+    elif pres["index"] == "dup":
+        df.index = np.zeros(n, dtype=int)
+    elif pres["index"] == "str":
+        df.index = [f"r{(k * 7) % n}-{k}" for k in range(n)]
+    return df
+
+
+def full_dataset(tab, pres, meta, enforce=True):
+    import mokapot
+
+    return mokapot.dataset.LinearPsmDataset(full_frame(tab, pres), target_column="target", spectrum_columns="spec",
+                                           peptide_column="pep", protein_column="prot" if "prot" in meta else None,
+                                           feature_columns=pres["fc"], copy_data=True, enforce_checks=enforce)
+
+
+def full_wire_frame(tab, pres):
+    out = []
+    for c in pres["cols"]:
+        if c == "rowid":
+            out.append([c, [Fraction(tab["ids"][i]) for i in pres["order"]]])
+        elif c[0] == "f" and c[1:].isdigit():
+            out.append([c, [Fraction(tab["feats"][i][int(c[1:])]) for i in pres["order"]]])
+        else:
+            out.append([c, []])
+    return out
+
+
+def classify_full_exc(e, direction_is_feature):
+    """a KeyError is the expected refusal only for a `direction` that is not a feature of the dataset"""
+    if isinstance(e, KeyError) and not direction_is_feature:
+        return "reject-keyerror"
+    return classify_exc(e)
+
+
+def eval_full_cases(chk, cases):
+    import mokapot
+    from sklearn.exceptions import NotFittedError
+
+    lines, pending = [], []
+    with tempfile.TemporaryDirectory() as tmp:
+        for case in cases:
+            tab, feat_order, meta = case["tab"], case["feat_order"], case["meta"]
+            ids, n = tab["ids"], len(tab["ids"])
+            thr = Fraction(case["thr"])
+            mult = case["mult"]
+            m = mult or 1
+            fidx = [int(c[1:]) for c in feat_order[1:]]
+            # the scaler's parameters, computed here from the table (IntScaler: column minimum; the id column is kept)
+            lo = [0] + [min(tab["feats"][i][j] for i in range(n)) if mult else 0 for j in fidx]
+            scaled = [[(tab["feats"][i][j] - lo[k + 1]) * m for k, j in enumerate(fidx)] for i in range(n)]
+            pseudo = dict(tab=dict(ids=ids, feats=scaled, targets=tab["targets"], pat=tab["pat"]), thr=case["thr"],
+                          max_iter=case["max_iter"])
+            outcomes, per_var = [], []
+            boundary_case = False
+            for var in case["variants"]:
+                pres = var["pres"]
+                pvar = dict(order=pres["order"], shuffle=var["shuffle"], seed=var["seed"])
+                try:
+                    psms = full_dataset(tab, pres, meta, case["enforce"])
+                except ValueError as e:
+                    chk.reject("dataset-constructor:" + str(e)[:40])
+                    continue
+                log = new_log()
+                seed = var["seed"] if var["rng_form"] == "int" else np.random.default_rng(var["seed"])
+                model = mokapot.Model(APIS[case["api"]](kind=case["kind"], log_id=log),
+                                      scaler=IntScaler(mult) if mult else "as-is", train_fdr=float(thr),
+                                      max_iter=case["max_iter"], direction=case["direction"], override=case["override"],
+                                      shuffle=var["shuffle"], rng=seed)
+                obs = dict(status=None, weights=None, error=None)
+                try:
+                    model.fit(psms)
+                    obs["status"] = "ok"
+                except Exception as e:  # noqa: BLE001
+                    obs["status"] = classify_full_exc(e, case["direction"] is None or case["direction"] in feat_order)
+                    obs["error"] = repr(e)[:200]
+                obs["events"] = RECORDS.pop(log, [])
+                if obs["status"] == "ok":
+                    obs["weights"] = list(model.estimator.w_)
+                viol, boundary = spec_check_run(pseudo, pvar, obs)
+                boundary_case |= boundary
+                if obs["status"].startswith("other:"):
+                    viol.append(("exception", "Model.fit raised an unexpected exception", dict(error=obs["error"])))
+                perm = observed_perm(pseudo, pvar, obs)
+                if sorted(perm) != list(range(len(perm))):
+                    viol.append(("rows", "the estimator is not asked to score every PSM exactly once", dict(perm=perm)))
+                    perm = list(range(len(perm)))
+                got_lo = None
+                # (the order of `Model.features` and the parameters of the fitted scaler are not promised by the property
+                #  text as such: they are compared with the Lean model — `fitfull` — and enter the spec only through
+                #  the rows handed to the estimator, the invariance over presentations and the predictions below)
+                if obs["status"] == "ok" and mult:
+                    got_lo = [int(v) for v in model.scaler.lo_]
+                its = split_events(obs["events"])
+                nontriv = len(its) >= 2 or (var["shuffle"] and perm != list(range(len(perm))))
+                chk.case(None, ("full", json.dumps(case, sort_keys=True), json.dumps(var, sort_keys=True))
+                         if nontriv else None,
+                         sample=dict(full=True, n=n, features=feat_order, cols=pres["cols"], fc=pres["fc"],
+                                     status=obs["status"], fit_calls=len(its)))
+                chk.count("full_status", obs["status"])
+                chk.count("full_features", "given" if pres["fc"] is not None else "inferred")
+                chk.count("full_feature_subset", "all" if len(feat_order) == len(tab["feats"][0]) + 1 else "proper-subset")
+                chk.count("full_frame_order", "features-in-listed-order" if [c for c in pres["cols"] if c in feat_order]
+                          == feat_order else "other")
+                chk.count("full_index", pres["index"])
+                chk.count("full_dtypes", ",".join(sorted({pres["dtypes"][c] for c in feat_order})))
+                chk.count("full_probe_dtypes", ",".join(sorted({case["probe"]["dtypes"][c] for c in feat_order})))
+                chk.count("full_target_dtype", pres["target"])
+                chk.count("full_scaler", "IntScaler" if mult else "as-is")
+                chk.count("full_rng", var["rng_form"])
+                chk.count("full_direction", "auto" if case["direction"] is None else
+                          ("feature" if case["direction"] in feat_order else "not-a-feature"))
+                chk.count("full_shuffle", var["shuffle"])
+                if obs["status"] != "ok":
+                    chk.reject("full:" + obs["status"])
+                # ---- predictions of the trained object ------------------------------------------------------------
+                if obs["status"] == "ok" and not viol and not boundary:
+                    w = obs["weights"]
+
+                    def expect(order):
+                        out = []
+                        for i in order:
+                            sc = sum(a * b for a, b in zip(w, [ids[i]] + scaled[i]))
+                            out.append(float(sc) if case["api"] == "decision" else _proba(sc))
+                        return out
+
+                    probe = case["probe"]
+                    pds = full_dataset(tab, probe, meta, enforce=False)
+                    path = Path(tmp) / "full.pkl"
+                    mokapot.save_model(model, path)
+                    loaded = mokapot.load_model(path)
+                    runs = [("predict:training-dataset", model.predict, psms, pres["order"]),
+                            ("decision_function:other-presentation", model.decision_function, pds, probe["order"]),
+                            ("predict:other-presentation:loaded", loaded.predict, pds, probe["order"])]
+                    for name, fn, ds_, order in runs:
+                        try:
+                            got = [float(x) for x in np.atleast_1d(fn(ds_))]
+                        except Exception as e:  # noqa: BLE001
+                            got = "raised " + repr(e)[:160]
+                        chk.count("full_probe", name)
+                        if got != expect(order):
+                            viol.append(("train-predict-by-name",
+                                         "the trained model does not give a PSM the score of its own features matched "
+                                         "by the names stored at fit time (scaled with the parameters fitted then), "
+                                         "whatever the column arrangement / feature_columns order of the dataset",
+                                         dict(probe=name, got=str(got)[:300], want=str(expect(order))[:300],
+                                              probe_cols=probe["cols"], probe_fc=probe["fc"])))
+                    if list(loaded.features) != list(model.features) or not loaded.is_trained:
+                        viol.append(("save-load", "a saved and re-loaded model has other feature names",
+                                     dict(got=list(loaded.features))))
+                    chk.count("full_probe_features", "given" if probe["fc"] is not None else "inferred")
+                    if not viol:
+                        mdl = [[list(model.features), [Fraction(x) for x in (got_lo or [])], [Fraction(x) for x in w]]]
+                        lines.append(req("predictfull", mdl, [mult] if mult else [], len(probe["order"]),
+                                         full_wire_frame(tab, probe), meta, [probe["fc"]] if probe["fc"] is not None else []))
+                        pending.append(("predict", expect(probe["order"]), case["api"], dict(full_case=case)))
+                    # refusals: an untrained model, a dataset with another set of feature names (nothing is promised;
+                    # code and model must refuse alike)
+                    fresh = mokapot.Model(APIS[case["api"]](kind=case["kind"], log_id=log), scaler="as-is")
+                    other = dict(probe, fc=[c for c in (probe["fc"] or feat_order) if c != feat_order[-1]] + ["spec"])
+                    for name, mobj, pr, mdl in (("untrained", fresh, probe, []),
+                                                ("other-names", model, other,
+                                                 [[list(model.features), [Fraction(x) for x in (got_lo or [])],
+                                                   [Fraction(x) for x in w]]])):
+                        try:
+                            mobj.predict(full_dataset(tab, pr, meta, enforce=False))
+                            got = "ok"
+                        except NotFittedError:
+                            got = "reject-notfitted"
+                        except ValueError as e:
+                            got = "reject-features" if "do not match" in str(e) else "other:ValueError"
+                        except Exception as e:  # noqa: BLE001
+                            got = "other:" + type(e).__name__
+                        chk.reject("full-predict:" + name + ":" + got)
+                        lines.append(req("predictfull", mdl, [mult] if mult else [], len(pr["order"]),
+                                         full_wire_frame(tab, pr), meta, [pr["fc"]] if pr["fc"] is not None else []))
+                        pending.append(("predict-status", got, case["api"], dict(full_case=case, probe=name)))
+                    RECORDS.pop(log, None)
+                per_var.append((var, obs, viol, perm, got_lo, list(model.features) if obs["status"] == "ok" else None))
+                outcomes.append((var, canon_outcome(pseudo, obs), got_lo))
+            if boundary_case:
+                chk.float_boundary += 1
+                continue
+            if case["kind"] in INVARIANT_KINDS and len(outcomes) == 2 and not any(v[2] for v in per_var):
+                (v0, o0, l0), (v1, o1, l1) = outcomes
+                for key in ("status", "weights", "trace"):
+                    if o0[key] != o1[key]:
+                        per_var[1][2].append(("order-invariance",
+                                              f"{key} of the trained model depends on the presentation of the table (row "
+                                              "order, physical column order, index, dtypes), the shuffle switch or the "
+                                              "seed although the estimator ignores the order of its examples",
+                                              dict(a=str(o0[key])[:300], b=str(o1[key])[:300])))
+                        break
+                else:
+                    if l0 != l1:
+                        per_var[1][2].append(("order-invariance", "the fitted scaler depends on the presentation of the "
+                                              "table", dict(a=l0, b=l1)))
+            for var, obs, viol, perm, got_lo, names in per_var:
+                for sig, clause, detail in viol:
+                    chk.spec_violation(sig, dict(full_case=jsonable(case), variant=var, clause=clause, **detail,
+                                                 impl=impl_summary(obs)))
+                pres = var["pres"]
+                targets = [bool(tab["targets"][i]) for i in pres["order"]]
+                lines.append(req("fitfull", Atom(case["kind"]), var["shuffle"], perm, case["max_iter"], thr,
+                                 case["override"], [] if case["direction"] is None else [case["direction"]],
+                                 full_wire_frame(tab, pres), meta, [pres["fc"]] if pres["fc"] is not None else [],
+                                 targets, [mult] if mult else []))
+                view = impl_fit_view(obs)
+                view["names"], view["lo"] = names, (got_lo if names is not None else None)
+                pending.append(("fit", view, bool(viol), dict(full_case=case, variant=var, perm=perm)))
+    for (kind, impl, extra, info), r in zip(pending, common.driver_batch(lines)):
+        r = r.strip()
+        if kind == "fit":
+            if r == "reject-keyerror":
+                mv = dict(status="reject-keyerror", trace=[], weights=None, names=None, lo=None)
+            else:
+                v = dec(r)
+                if not isinstance(v, list) or len(v) != 3:
+                    mv = dict(status="driver:" + r[:60])
+                else:
+                    st = "reject-worse" if v[0] in ("reject-worse-iter", "reject-worse-final") else v[0]
+                    trace = [[(int(a_rat(p[0])), 1.0 if a_bool(p[1]) else 0.0) for p in it] for it in v[1]]
+                    if v[2] == "none":
+                        names = lo_m = w = None
+                    else:
+                        names = [common.a_str(t) for t in v[2][0][0]]
+                        lo_m = [int(a_rat(t)) for t in v[2][0][1]] or None
+                        w = [int(a_rat(t)) for t in v[2][0][2]]
+                    mv = dict(status=st, trace=trace, weights=w, names=names, lo=lo_m)
+            if impl != mv and not extra:
+                chk.corr_break("fitfull", dict(info, impl=_short(impl), model=_short(mv)))
+        elif kind == "predict":
+            if r.startswith("reject"):
+                mv = r
+            else:
+                mv = [float(x) if extra == "decision" else _proba(int(x)) for x in (a_rat(t) for t in dec(r))]
+            if impl != mv:
+                chk.corr_break("predictfull", dict(info, impl=str(impl)[:300], model=str(mv)[:300]))
+        else:
+            mv = r if r.startswith("reject") else "ok"
+            if impl != mv:
+                chk.corr_break("predictfull-status", dict(info, impl=impl, model=mv))
+
+
+def full_cases(chk, rng, count):
+    eval_full_cases(chk, [gen_full_case(rng) for _ in range(count)])
 
 
 # ----------------------------------------------------------------------------
@@ -1590,6 +1992,36 @@ def hyperparameter_cases(chk, rng, count):
                    needs_cv)
         runs.append((line, info, status, events, fits, search_calls, loop_calls, inner, kf, refit, len(grid),
                      bool(model._needs_cv)))
+        # (second pass) the same model object fitted again, as brew(model=<trained PercolatorModel>) does: `_needs_cv` is off
+        # now and the inner estimator is trained.  Every fit call must still pair each row with the class of its own PSM,
+        # no search may run again.  The rows come in another order, under permuted index labels.
+        if status == "ok":
+            order2 = [int(i) for i in rs.permutation(n)]
+            ds2 = LinearPsmDataset(df.iloc[order2], target_column="t", spectrum_columns="spec", peptide_column="pep",
+                                   feature_columns=["rowid", "f0"])
+            model.shuffle = not shuffle
+            try:
+                model.fit(ds2)
+                st2 = "ok"
+            except Exception as e:  # noqa: BLE001
+                st2 = classify_exc(e)
+            fits2 = [ev for ev in _CvSpy.LOGS.pop(log_id, []) if ev[0] == "fit"]
+            bad2 = sum(1 for ev in fits2 for i, y in zip(ev[1], ev[2]) if (y == 0) != (not target[i]) or y not in (0, 1))
+            dup2 = sum(len(ev[1]) - len(set(ev[1])) for ev in fits2)
+            chk.case(None, ("cv-refit", log_id))
+            chk.count("hyperparameter-refit", f"first_needs_cv={needs_cv},status={st2}")
+            if st2 != "ok":
+                chk.reject("hyperparameter-refit:" + st2)
+            if bad2 or dup2 or st2.startswith("other:"):
+                chk.spec_violation("cv-refit-misaligned",
+                                   dict(misaligned_rows=bad2, repeated_rows=dup2, fit_calls=len(fits2), status=st2,
+                                        clause="fitting an already trained model (after its hyper-parameter search) "
+                                               "again: feature rows paired with labels of other PSMs", **info))
+                return
+            if any(ev[3] != inner for ev in fits2) or bool(model._needs_cv) or (st2 == "ok" and len(fits2) != max_iter):
+                chk.corr_break("fitcv-refit", dict(case=info, why="a second fit of the model searched again, trained "
+                                                   "another estimator object or made another number of fit calls",
+                                                   fit_calls=len(fits2), needs_cv=bool(model._needs_cv)))
     for r, run in zip(common.driver_batch([x[0] for x in runs]), runs):
         _, info, status, events, fits, search_calls, loop_calls, inner, kf, refit, ngrid, flag = run
         v = dec(r)
@@ -1768,6 +2200,8 @@ def search(chk):
     if not chk.spec_violations:
         score_api_cases(chk, rng, 300)
     if not chk.spec_violations:
+        full_cases(chk, rng, 400)
+    if not chk.spec_violations:
         exhaustive(chk, 4, (1, 2, 3))
     minimise(chk)
 
@@ -1786,8 +2220,9 @@ def main(chk, args):
     sklearn_cases(chk, rng, 6 if quick else 60)
     refit_cases(chk, rng, 90 if quick else 700)
     hyperparameter_cases(chk, rng, 12 if quick else 120)
-    score_api_cases(chk, rng, 27 if quick else 300)
+    score_api_cases(chk, rng, 33 if quick else 330)
     percolator_weights_cases(chk, rng, 2 if quick else 10)
+    full_cases(chk, rng, 60 if quick else 600)
     if quick:
         exhaustive(chk, 3, (1, 2))
     else:
@@ -1820,6 +2255,13 @@ def main(chk, args):
         "are only compared code vs model (reject-dims / reject-index)",
         "Model.decision_function with a scaler is modelled with an arbitrary positional transform applied after the "
         "selection by stored name (predictScaled); fitting the scaler (fit_transform at model.py:288) is not modelled",
+        "second pass: Model.fit from the DataFrame is modelled (fitFull: PsmDataset feature list dataset.py:108-113, "
+        "features by name dataset.py:143-146, stored names and scaler fit model.py:286-288, direction by name) and the "
+        "prediction of the trained object (predictFull); the scaler is an abstract (fit, transform) pair with "
+        "fit_transform(X) = transform(X) after fit(X); row-order invariance of the whole is proved for scalers that are "
+        "fitted on order-independent statistics and transform row by row (RowWise, ScalerFitPermInvariant; exhibited by "
+        "cntScaler, in the harness: IntScaler); the order of Model.features and the scaler parameters are compared "
+        "with the model only (the property text does not promise them)",
         "load_model on a Percolator weights file (model.py:518-530) is outside the property text (not a model saved by "
         "mokapot): exercised, outcome recorded in evidence key load_model_percolator_weights, refusals tallied",
         "feature values are small integers so that every estimator sum/product is exact in float64; q-value "
@@ -1835,6 +2277,12 @@ def replay(chk, path):
     if "shape_case" in info:
         common.build_and_audit("C12")
         eval_shape_cases(chk, [info["shape_case"]])
+        for sig, i in chk.spec_violations:
+            print("REPRODUCED", sig, json.dumps(i, default=str)[:1500])
+        return 1 if chk.spec_violations else 0
+    if "full_case" in info:
+        common.build_and_audit("C12")
+        eval_full_cases(chk, [info["full_case"]])
         for sig, i in chk.spec_violations:
             print("REPRODUCED", sig, json.dumps(i, default=str)[:1500])
         return 1 if chk.spec_violations else 0
